@@ -34,7 +34,7 @@ Bodies ==
         {Lit(NumD(N1), <<R("or", [t |-> "list", items |-> <<TRef(x), IdV("integer")>>])>>) : x \in Targets}
    \cup {Obj(<<P(Ka, One)>>, <<R("additionalProperties", TRef(x))>>) : x \in Targets}
    \cup {Obj(<<>>, <<R("additionalProperties", TRef(x))>>) : x \in Targets}
-   \cup {Obj(<<P(Ka, Ref(<<x>>, <<R("optional", BV(FALSE))>>))>>, <<>>) : x \in Targets}         \* the rule is there, its value says "required"
+   \cup {Obj(<<P(Ka, Ref(<<x>>, <<R("optional", BV(FALSE))>>))>>, <<>>) : x \in Targets}
    \cup {Obj(<<P(Ka, Ref(<<x, y>>, <<>>))>>, <<>>) : x \in Targets \ {"@missing"}, y \in Targets \ {"@missing"}}
       ELSE {})
 DeepBodies == {One} \cup {Obj(<<P(Ka, Ref(<<x>>, <<>>))>>, <<>>) : x \in Targets \ {"@missing"}}
@@ -51,7 +51,10 @@ KeyBodies == {One, StrLit}
 KeyRoots == {Obj(<<SC("@t0", One)>>, <<>>), Obj(<<P(Kr, Ref(<<"@t0">>, <<>>)), SC("@t1", Ref(<<"@t0">>, <<OptR>>))>>, <<>>),
              \* a type named only in the value of a key-shortcut property (directly, inside an object, inside an array)
              Obj(<<SC("@t0", Ref(<<"@t1">>, <<>>))>>, <<>>), Obj(<<SC("@t0", Obj(<<P(Ka, Ref(<<"@t1">>, <<>>))>>, <<>>))>>, <<>>),
-             Obj(<<SC("@t0", Arr(<<Ref(<<"@t1">>, <<>>)>>, <<>>))>>, <<>>)}
+             Obj(<<SC("@t0", Arr(<<Ref(<<"@t1">>, <<>>)>>, <<>>))>>, <<>>),
+             \* a type named inside an or rule set next to another rule (the rule set becomes an unnamed type of its own): used names
+             Lit(NumD(N1), <<R("or", [t |-> "list", items |-> <<[t |-> "set", rules |-> <<R("type", TRef("@t0")), R("nullable", BV(TRUE))>>], TRef("@t1"), IdV("integer")>>])>>),
+             Obj(<<P(Ka, Lit(NumD(N1), <<R("or", [t |-> "list", items |-> <<[t |-> "set", rules |-> <<R("type", TRef("@t1")), R("nullable", BV(TRUE))>>], IdV("integer")>>])>>))>>, <<>>)}
 DeepRoots == {Obj(<<P(Kr, Ref(<<"@t0">>, <<>>)), P(Kx, Ref(<<"@t1">>, <<>>))>>, <<>>)}
 Roots == IF Level = 3 THEN DeepRoots ELSE IF Level = 4 THEN KeyRoots
          ELSE {Ref(<<"@t0">>, <<>>), Obj(<<P(Kr, Ref(<<"@t0">>, <<>>)), P(Kx, Ref(<<TName(NTypes - 1)>>, <<OptR>>))>>, <<>>)}
